@@ -10,6 +10,8 @@ import (
 	"testing"
 
 	"github.com/folbricht/desync"
+
+	"verifharness/internal/ref"
 )
 
 func sortStrings(s []string) { sort.Strings(s) }
@@ -154,6 +156,23 @@ func TestSelf(t *testing.T) {
 		_, k := buildStream(c.target, targetDomain(c.target), c.es)
 		if k.Malformed != c.mal || (c.mal && k.What != c.what) {
 			fail("verdict for %s %+v = %+v, want malformed=%v %s", c.target, c.es, k, c.mal, c.what)
+		}
+	}
+	// structured index cases against the independent codec (internal/ref): an unmutated table parses
+	// there, everything the builder calls certainly malformed (other than an oversize chunk, which
+	// the strict parser does not judge) is refused there, and desync accepts the unmutated ones
+	for _, c := range idxEnumCases() {
+		b, k, _ := c.Idx.build()
+		_, perr := ref.ParseIndex(b)
+		switch {
+		case c.Idx.Tab == "none" && perr != nil:
+			fail("index builder: unmutated table refused by the reference parser: %v (%+v)", perr, *c.Idx)
+		case k.Malformed && k.What != "index:oversize-chunk" && perr == nil:
+			fail("index builder: %s not refused by the reference parser (%+v)", k.What, *c.Idx)
+		case c.Idx.Tab == "none" && c.Idx.Max == "max" && c.Idx.Flags == "" && c.Target == "index":
+			if r := runTarget("index", b, unsafeLo); r.Err != nil {
+				fail("index builder: valid index refused by desync: %v (%+v)", r.Err, *c.Idx)
+			}
 		}
 	}
 	// a generated well-formed archive and index are accepted by desync (the generator speaks the format)
